@@ -2,6 +2,8 @@
 // of harness/g4mock, monitored against the library API and the core driver.
 // usage: c17_g4 <seed> <n_transfer_configs> <events_per_config> <scratch dir>
 #include <cmath>
+#include <thread>
+#include <atomic>
 #include <cstdlib>
 #include <fstream>
 #include <limits>
@@ -403,7 +405,93 @@ int main(int argc, char ** argv)
               fail("validation|aborted-but-primaries", cell + ": AbortRun was called and primaries were still pushed");
           }
   }
-  fprintf(OUT, "{\"events\":%ld,\"primaries\":%ld,\"transfer_classes\":%zu,\"validation_cells\":%ld,\"refused_by_both\":%ld,\"accepted_by_both\":%ld,\"sample\":%s,", events, primaries,
+  // ------------------------------------------------------------- (3) one action per worker thread (Geant4-MT): each worker's primaries
+  // are its own decay.  The interleaving is made deterministic: worker A's vertex generator holds A inside GeneratePrimaries (after its
+  // decay was generated, before its particles are handed over) until worker B has completed an event of another nuclide.
+  long mt_rounds = 0;
+  {
+    struct BlockingVertexGenerator : public bxdecay0_g4::VertexGeneratorInterface
+    {
+      std::atomic<int> * stage = nullptr;
+      void ShootVertex(G4ThreeVector & v) override
+      {
+        v = G4ThreeVector(1, 2, 3);
+        if (stage != nullptr && stage->load() == 0) {
+          stage->store(1);                                                  // A is inside
+          while (stage->load() != 2) std::this_thread::yield();            // until B is done
+        }
+      }
+    };
+    static const char * NA[] = {"Co60", "K40", "Na22"};
+    static const char * NB[] = {"Am241", "Bi214+Po214", "Tl208"};
+    for (int round = 0; round < 3; round++) {
+      mt_rounds++;
+      PGA::ConfigurationInterface ca, cb;
+      ca.decay_category = "background";
+      ca.nuclide = NA[round];
+      ca.seed = 11 + round;
+      cb.decay_category = "background";
+      cb.nuclide = NB[round];
+      cb.seed = 22 + round;
+      auto reference = [&](const PGA::ConfigurationInterface & c, bxdecay0::event & e) {
+        std::default_random_engine gen(c.seed);
+        bxdecay0::std_random prng(gen);
+        bxdecay0::decay0_generator ref;
+        ref.set_decay_category(bxdecay0::decay0_generator::DECAY_CATEGORY_BACKGROUND);
+        ref.set_decay_isotope(c.nuclide);
+        ref.initialize(prng);
+        ref.shoot(prng, e);
+      };
+      bxdecay0::event ea, eb;
+      reference(ca, ea);
+      reference(cb, eb);
+      std::atomic<int> stage{0};
+      PGA A(0), B(0);
+      BlockingVertexGenerator bv;
+      bv.stage = &stage;
+      A.SetVertexGenerator(bv);
+      A.SetConfiguration(ca);
+      B.SetConfiguration(cb);
+      G4Event ga, gb;
+      std::string xa, xb;
+      std::thread ta([&] {
+        try {
+          A.GeneratePrimaries(&ga);
+        } catch (std::exception & x) {
+          xa = x.what();
+        }
+        stage.store(2); // (if A never reached its vertex generator, B must not wait for ever)
+      });
+      std::thread tb([&] {
+        for (long spin = 0; stage.load() == 0 && spin < 200000000L; spin++) std::this_thread::yield();
+        try {
+          B.GeneratePrimaries(&gb);
+        } catch (std::exception & x) {
+          xb = x.what();
+        }
+        stage.store(2);
+      });
+      ta.join();
+      tb.join();
+      auto same = [&](const bxdecay0::event & e, const G4Event & g) {
+        const auto & pp = e.get_particles();
+        if (g.primaries.size() != pp.size()) return false;
+        for (size_t i = 0; i < pp.size(); i++) {
+          const G4MockPrimary & q = g.primaries[i];
+          if (q.definition == nullptr || q.definition->GetPDGEncoding() != pdg_of((int)pp[i].get_code())) return false;
+          if (std::fabs(q.total_momentum / CLHEP::MeV - pp[i].get_p()) > 1e-9 * pp[i].get_p() + 1e-15) return false;
+        }
+        return true;
+      };
+      if (!xa.empty() || !xb.empty()) fail("workers|exception", fmt("two workers (%s, %s): ", NA[round], NB[round]) + xa + " / " + xb);
+      else if (!same(ea, ga) || !same(eb, gb))
+        fail("workers|primaries-of-another-worker", fmt("two actions on two threads (%s seed %d, %s seed %d): worker A was held between generating its decay and handing it over while worker B "
+                                                         "completed an event; A pushed %zu primaries (its own decay has %zu particles), B %zu (%zu)",
+                                                         NA[round], ca.seed, NB[round], cb.seed, ga.primaries.size(), ea.get_particles().size(), gb.primaries.size(), eb.get_particles().size()));
+    }
+  }
+  fprintf(OUT, "{\"worker_rounds\":%ld,", mt_rounds);
+  fprintf(OUT, "\"events\":%ld,\"primaries\":%ld,\"transfer_classes\":%zu,\"validation_cells\":%ld,\"refused_by_both\":%ld,\"accepted_by_both\":%ld,\"sample\":%s,", events, primaries,
           classes.size(), cells, refused_both, accepted_both, sample.empty() ? "null" : sample.c_str());
   emit_mismatches(OUT, "mismatches", mm);
   fprintf(OUT, "}\n");
